@@ -6,7 +6,7 @@ loop stops at the last complete symbol of the file) over an arbitrary byte strin
 Every count, size and offset of the file is used as the code uses it, unchecked: `e_shoff`, `e_shentsize`,
 `e_shnum`, `e_shstrndx` (the last three are the `int` a possibly short `get_int16` returns), `sh_name`,
 `sh_offset`, `sh_size`, `st_name`.  Arrays: `e_ident[16]` (filled by one `fread` of 16, indexed by constants),
-`name[128]` (filled by `get_string_at_offset(name, sizeof(name), ...)`, capacity and length parameter `nameCap`).
+`name[256]` (128 before proposed fix C03-14; filled by `get_string_at_offset(name, sizeof(name), ...)`, capacity and length parameter `nameCap`).
 Loops: the two section table walks make `max 0 e_shnum <= 65535` rounds each (structural); the copy loop and
 the symbol loop are given fuel `f.size + 2` and the theorem is that it never runs out.
 `e_machine` only selects the CPU (`file_read` is called with `allow_unknown_cpu == 0`, so no value is an error).
@@ -163,7 +163,7 @@ def sectionLoop (maxOff : Nat) (f : Bytes) (nameCap : Nat) (h : Hdr) (stroffset 
 def roundsOf (shnum : BitVec 32) : Nat := shnum.toInt.toNat
 
 /-- `read_elf`; `maxOff` = largest offset `fseek` accepts on the file system holding the file -/
-def read (maxOff : Nat) (f : Bytes) (nameCap : Nat := 128) : Except Fault Loaded :=
+def read (maxOff : Nat) (f : Bytes) (nameCap : Nat := 256) : Except Fault Loaded :=
   let (ident, p) := fread f {} 16
   let id (i : Nat) : UInt8 := ident.getD i 0      -- `memset(e_ident, 0, 16)` before the read
   if id 0 ≠ 0x7f ∨ id 1 ≠ 69 ∨ id 2 ≠ 76 ∨ id 3 ≠ 70 then .ok { ret := -2, mem := {} }
